@@ -57,6 +57,24 @@ CLAIMS = {
         technique='Lean 4 proof (case analysis of the interpreter on each outcome, list characterisation of find_handler) + '
                   'model/implementation correspondence + Python-semantics reference evaluator',
         ref='DESIGN.md §5 C14'),
+    'C02': dict(
+        text='Lean 4 theorems about name resolution in the interpreter model, for ALL templates, call arguments, names and '
+             'namespaces: frameGet_fresh / lookup_first_offer (the namespace answers with the topmost frame offering the name, '
+             'nothing below is consulted), callStack_offer / lookup_precedence (keywords > template variables > clients, last '
+             'first, private names never > call mapping > defaults), initvars_lookup / lookup_precedence_full (construction '
+             'keywords > construction mapping, private keys dropped), underscore_not_from_client, subtemplate_sees_caller / '
+             'subtemplate_lookup (own variables and defaults on top of the caller\'s current namespace, popped afterwards), '
+             'block_binding_shadows / block_binding_transparent / block_bindings_end (from C08), tag_lookup_calls / '
+             'tag_lookup_renders_template / expr_lookup_does_not_call. Correspondence: results and call traces; oracle: winner '
+             'computed from the documented order over all 128 source subsets x {plain, callable, template} (+ private names), '
+             'scope-stack evaluator over random nestings of let/with/in/if/try-except with probes before/inside/after, '
+             'name-vs-expression forms, re-entered templates under shadowing blocks',
+        note='Trusted: Lean kernel; interpreter model validated (not verified) against the real classes. Partial: lookups are '
+             'characterised for frames with an empty attribute cache (as created); block_bindings_end is stated on the '
+             'cache-erased namespace (cache entries only repeat attribute values, which the correspondence run confirms)',
+        technique='Lean 4 proof (induction over the frame list, reuse of the C08 invariant) + model/implementation '
+                  'correspondence + precedence/scope oracle',
+        ref='DESIGN.md §5 C02'),
     'C08': dict(
         text='Lean 4 theorems about the interpreter model (Render.lean: namespace stack, lookups with auto-call, '
              'expressions, every block tag, sub-template calls, dtml-return, exceptions, fault plans as part of the '
